@@ -20,6 +20,9 @@ func rebuildScenarios(seed int64, bi int, o Omni) []*Scenario {
 	opts.Inject = bi%3 == 1
 	opts.Gen.Degenerate = bi%3 == 2
 	opts.SecondPath = bi%4 == 2
+	if bi%5 == 1 {
+		opts.Gen.MaxDepth = 3
+	}
 	return genScenarios(r, opts)
 }
 
